@@ -139,6 +139,23 @@ FmtInit3 == << Cnew("N", "n"), Ccreate("NL", 1, "work", 0),
                Ccreate("DP", 4, "t", 1), Ccreate("DC", 4, "m", 3),
                Csettopdef(1, 4), [op |-> "set_name", kind |-> "I", x |-> 1, val |-> "top"],
                Cchild(1, "u", 2), Cchild(4, "u", 1), Cchild(4, "v", 2), Cchild(4, "w", 3) >>
+(* C17: adversarial names for two siblings of every naming scope, then export and re-import *)
+NamePool == {"a", "A", "ab", "aB", "a-b", "a_b", "a b", "1a", "_a", "a[0]", "a/b", "a\\b", "$a", "&a", "a&b",
+             "a_sdn_1_", "A_sdn_1_", "a_sdn_2_", "@254:z", "@255:z", "@256:z", "@257:z", "@256:Z", "@300:yz", "@300:xz",
+             "@256:-", "1", "-"}
+NameInit == FmtInit \o << Cchild(4, "u", 3), Cchild(4, "v", 1) >>
+               \o [j \in 1..12 |-> Ccreate("DP", 1, "k" \o ToString(j), 1)]      \* twelve more sibling ports on leaf
+NameCands(s) ==
+    LET groups == {<<"L", 1, 2>>, <<"D", 2, 3>>, <<"P", 4, 5>>, <<"C", 1, 2>>, <<"I", 2, 3>>}
+        many(prefix, len) ==      \* twelve siblings whose long names collide after truncation
+            [op |-> "seq", calls |-> [j \in 1..12 |-> [op |-> "set_name", kind |-> "P", x |-> 6 + j,
+                                                      val |-> prefix \o ToString(len) \o ":" \o ToString(9 + j)]]
+                                      \o << [op |-> "edif_rt", n |-> 1] >>] IN
+    {many("@", 300), many("#", 300), many("#", 257), many("@", 256)} \cup
+    {[op |-> "seq", calls |-> << [op |-> "set_name", kind |-> g[1], x |-> g[2], val |-> nm[1]],
+                                 [op |-> "set_name", kind |-> g[1], x |-> g[3], val |-> nm[2]],
+                                 [op |-> "edif_rt", n |-> 1] >>] :
+        <<g, nm>> \in groups \X {pp \in NamePool \X NamePool : pp[1] # pp[2]}}
 EdifOpts == [rename : BOOLEAN, case : {"same", "upper"}, bitorder : {"asc", "desc", "mixed"},
              comments : BOOLEAN, skip_empty : BOOLEAN]
 FmtCands(s, which) ==
@@ -220,7 +237,9 @@ QScope == [init |-> QInit, ops |-> {}, max |-> MaxAll(0), names |-> {}, vals |->
            createN |-> {0}, queries |-> {"C13"}, walk |-> FALSE, sample |-> 3000]
 
 ScopeTable ==
-  [ edif_read |-> FmtScope({"edif_read"}),
+  [ edif_names |-> [init |-> NameInit, ops |-> {}, max |-> MaxAll(0), names |-> {}, vals |-> {}, pos |-> {NoPos},
+                    createN |-> {0}, queries |-> {"C17"}, walk |-> FALSE],
+    edif_read |-> FmtScope({"edif_read"}),
     edif_rt |-> FmtScope({"edif_rt"}),
     edif_read1 |-> [FmtScope({"edif_read"}) EXCEPT !.init = FmtInit1],
     edif_rt1 |-> [FmtScope({"edif_rt"}) EXCEPT !.init = FmtInit1],
@@ -309,6 +328,7 @@ QCands(s) ==
     \cup (IF "clone" \in Queries THEN CloneCands(s) ELSE {})
     \cup (IF "C20" \in Queries THEN CompareCands(s) ELSE {})
     \cup FmtCands(s, Queries)
+    \cup (IF "C17" \in Queries THEN NameCands(s) ELSE {})
     \cup (IF "C13" \in Queries THEN RandomSubset(Scope.sample * (MaxDepth + 1), QueryProduct(s)) \cup DirectProduct(s) ELSE {})
     \cup (IF "xf2" \in Queries
           THEN StepCands(s) \cup {[op |-> "uniquify", n |-> n] : n \in IdsN(s)}
